@@ -434,7 +434,8 @@ func (c *Ctx) bodySetEvidence(f *Fn, call *ast.CallExpr) bool {
 	// "<the directive>.BodyCoords.IsSet()" holds at the call: tested in this function in whatever form (early return,
 	// enclosing if, case clause, predicate helper), or by every caller when the directive is a parameter
 	fact := func(g *Fn, cond ast.Expr, holds bool, subj ast.Expr) bool {
-		cl, ok := ast.Unparen(cond).(*ast.CallExpr)
+		// a local that keeps the result of the test (hasBody := d.BodyCoords.IsSet()) stands for the test
+		cl, ok := ast.Unparen(unalias(g, cond)).(*ast.CallExpr)
 		if !ok || !holds || isSetM == nil || callee(g.Pkg, cl) != isSetM {
 			return false
 		}
